@@ -10,6 +10,10 @@
 //     the logic of the executor is what is observed.
 // One scenario per input line, one output line per scenario:
 //   R k=v ... | T tid:kind:a:b:c ... | X id:api:rc:sched:exec:disc:callst:retst:runst:donest ...
+// Two kinds of trace tokens are observations of the harness, not events of the executor (iwtp only):
+//   tid:18:id0:id1:...  content of tp->threads (small thread ids, in list order; 999 = unknown pthread_t) read by the
+//                       thread that holds the mutex, right after its UNLOCK / WAIT event and before the mutex is released
+//   tid:19:id           pthread_detach(id) called by thread tid
 #include "hcommon.h"
 #include <pthread.h>
 #include <sched.h>
@@ -35,11 +39,13 @@
 #endif
 
 enum { K_LOCK = 1, K_UNLOCK, K_WAIT, K_WAKE, K_SIGNAL, K_BCAST, K_ENQ, K_DEQ, K_RUN, K_DONE, K_DISCARD, K_CALL,
-       K_RET, K_SPAWN, K_EXIT, K_JOIN, K_FREE, K_NKIND };
+       K_RET, K_SPAWN, K_EXIT, K_JOIN, K_FREE, K_REGS, K_DETACH, K_NKIND };
 enum { T_WORKER0 = 0, T_SUB0 = 10, T_SHUT = 20, T_OVF0 = 30, T_MAX = 1024 };
 
 #define MAXEV   400000
 #define MAXTASK 2048
+#define MAXSIDE (1 << 22)
+#define MAXREGS 64
 #define NGATE   16
 #define WATCHDOG_S 25
 #define HOLD_TIMEOUT_MS 6000
@@ -48,6 +54,8 @@ typedef struct { short tid, kind; int a, b, c; } hev;
 static hev LOG[MAXEV];
 static atomic_int nlog;
 static atomic_int log_overflow;
+static int SIDE[MAXSIDE];                 // variable-length payload of the K_REGS observations: LOG[i].a = offset, .b = count
+static atomic_int nside;
 static __thread int my_tid = -1;
 static __thread int quiet;
 static __thread uint64_t my_rng;
@@ -79,12 +87,12 @@ static struct {
 
 static void *g_exec;         // the executor struct (quarantined at free)
 static _Atomic(void*) g_cond[2]; // its condition variables, 0 = cond, 1 = cond_queue
-static atomic_int g_freed, g_touch_after_free;
+static atomic_int g_started, g_freed, g_destroying, g_touch_after_free;
 static atomic_int subs_done;
 static atomic_int shutdown_returned;
 static long shutdown_ret_stamp, shutdown_call_stamp;
 static int shutdown_rc;
-static atomic_int badfn, qmax;
+static atomic_int badfn, qmax, bmax;
 static atomic_long scen_start;
 static atomic_int scen_active;
 static int scen_no;
@@ -147,10 +155,11 @@ static void lg(int kind, int a, int b, int c) {
   if (i >= MAXEV) { atomic_store(&log_overflow, 1); return; }
   LOG[i].tid = (short) my_tid; LOG[i].kind = (short) kind; LOG[i].a = a; LOG[i].b = b; LOG[i].c = c;
   int n = atomic_fetch_add(&cnt_tk[my_tid][kind], 1) + 1;
-  atomic_fetch_add(&cnt_k[kind], 1);
+  int nk = atomic_fetch_add(&cnt_k[kind], 1) + 1;
   for (int j = 0; j < nrules; ++j) {
     rule *r = &RULES[j];
-    if (r->t == 'O' && r->tid == my_tid && r->kind == kind && r->nth == n) open_gate(r->g);
+    // O:g:tid:kind:nth opens gate g at the nth event of that kind of thread tid; tid = -1: at the nth such event of any thread
+    if (r->t == 'O' && r->kind == kind && ((r->tid == my_tid && r->nth == n) || (r->tid == -1 && r->nth == nk))) open_gate(r->g);
   }
 }
 
@@ -163,6 +172,9 @@ static int cond_id(void *c) { return c == atomic_load(&g_cond[1]) ? 1 : 0; }
 static void touch(void) { if (atomic_load(&g_freed)) atomic_store(&g_touch_after_free, 1); }
 
 // ---- interposed pthread / free -------------------------------------------------------------------------
+static void log_regs(void); // defined below the included sources (needs struct iwtp)
+static int small_id(pthread_t t);
+
 static int hx_lock(pthread_mutex_t *m) {
   perturb();
   hold_point(K_LOCK);
@@ -174,6 +186,7 @@ static int hx_lock(pthread_mutex_t *m) {
 
 static int hx_unlock(pthread_mutex_t *m) {
   lgw(K_UNLOCK, 0, 0, 0);
+  log_regs();
   int rc = pthread_mutex_unlock(m);
   perturb();
   return rc;
@@ -182,6 +195,7 @@ static int hx_unlock(pthread_mutex_t *m) {
 static int hx_wait(pthread_cond_t *c, pthread_mutex_t *m) {
   int id = cond_id(c);
   lgw(K_WAIT, id, 0, 0);
+  log_regs();
   uint64_t r = (my_tid >= 0 && !quiet) ? sm64(&my_rng) : 1000;
   int slow = has_hold(K_WAKE);
   if (!slow && P.sp > 0 && (int) (r % 100) < P.sp) { // injected spurious wake-up
@@ -206,15 +220,24 @@ static int hx_wait(pthread_cond_t *c, pthread_mutex_t *m) {
 
 static int hx_signal(pthread_cond_t *c) { lgw(K_SIGNAL, cond_id(c), 0, 0); return pthread_cond_signal(c); }
 static int hx_broadcast(pthread_cond_t *c) { lgw(K_BCAST, cond_id(c), 0, 0); return pthread_cond_broadcast(c); }
-static int hx_nop(void *p) { (void) p; return 0; }
+// pthread_cond_destroy / pthread_mutex_destroy: shutdown is past its joins and starts to tear the executor down
+static int hx_nop(void *p) { (void) p; atomic_store(&g_destroying, 1); return 0; }
 // pthread_detach(self) of an overflow thread: the harness joins every thread itself at the end of the scenario
-static int hx_detach(pthread_t t) { (void) t; return 0; }
+static int hx_detach(pthread_t t) { lg(K_DETACH, small_id(t), 0, 0); return 0; }
 
 typedef struct { void*(*fn)(void*); void *arg; int id; } tramp;
 static struct { pthread_t t; int id; int joined; } THR[T_MAX];
 static int nthr;
 static pthread_mutex_t thr_mtx = PTHREAD_MUTEX_INITIALIZER;
 static int next_worker, next_ovf;
+
+static int small_id(pthread_t t) {
+  int id = 999;
+  pthread_mutex_lock(&thr_mtx);
+  for (int i = nthr - 1; i >= 0; --i) if (pthread_equal(THR[i].t, t)) { id = THR[i].id; break; }
+  pthread_mutex_unlock(&thr_mtx);
+  return id;
+}
 
 static void *trampoline(void *op) {
   tramp tr = *(tramp*) op;
@@ -305,6 +328,25 @@ static void hx_free(void *p) {
 static struct iwstw *g_stw;
 static struct iwtp *g_tp;
 
+// observation of tp->threads by the thread that holds tp->mtx (called between the UNLOCK / WAIT event and the real
+// unlock / wait).  Not taken by API callers once shutdown is set: they may overlap the tear-down of the list.
+static void log_regs(void) {
+  if (!P.tp || my_tid < 0 || quiet) return;
+  if (!atomic_load(&g_started)) return; // iwtp_start is still filling the list (the model starts with the full pool)
+  struct iwtp *tp = g_tp;
+  if (!tp || atomic_load(&g_freed) || atomic_load(&g_destroying)) return;
+  if (tp->shutdown && my_tid >= T_SUB0 && my_tid < T_SHUT) return;
+  size_t n = iwulist_length(&tp->threads);
+  if (n > MAXREGS) n = MAXREGS;
+  int off = atomic_fetch_add(&nside, (int) n);
+  if (off + (int) n > MAXSIDE) { atomic_store(&log_overflow, 1); return; }
+  for (size_t i = 0; i < n; ++i) {
+    pthread_t *pt = iwulist_at2(&tp->threads, i);
+    SIDE[off + i] = pt ? small_id(*pt) : 999;
+  }
+  lg(K_REGS, off, (int) n, 0);
+}
+
 // ---- task bodies and callbacks -------------------------------------------------------------------------
 static int task_id_of(const void *arg) {
   const trec *t = arg;
@@ -362,12 +404,13 @@ static void *submitter(void *op) {
     iwrc rc;
     bool sched = false;
     t->callst = atomic_fetch_add(&stamp, 1);
-    if (t->api == 4) {
-      lg(K_CALL, 4, 0, 0);
-      int q = P.tp ? iwtp_queue_size(g_tp) : iwstw_queue_size(g_stw);
+    if (t->api == 4 || t->api == 5) {
+      lg(K_CALL, t->api, 0, 0);
+      int q = t->api == 5 ? iwtp_threads_busy_num(g_tp) : P.tp ? iwtp_queue_size(g_tp) : iwstw_queue_size(g_stw);
       lg(K_RET, q, 0, 0);
-      int m = atomic_load(&qmax);
-      while (q > m && !atomic_compare_exchange_weak(&qmax, &m, q));
+      atomic_int *mx = t->api == 5 ? &bmax : &qmax;
+      int m = atomic_load(mx);
+      while (q > m && !atomic_compare_exchange_weak(mx, &m, q));
       t->rc = 0; t->sched = 0;
       t->retst = atomic_fetch_add(&stamp, 1);
       continue;
@@ -415,12 +458,15 @@ static void emit(const char *tag) {
   int n = atomic_load(&nlog);
   if (n > MAXEV) n = MAXEV;
   o += snprintf(OUT + o, sizeof(OUT) - o,
-                "%s scen=%d hook=%d sdcall=%ld sdret=%ld sdrc=%d holdto=%d badfn=%d qmax=%d nev=%d logovf=%d taf=%d | T", tag, scen_no,
+                "%s scen=%d hook=%d sdcall=%ld sdret=%ld sdrc=%d holdto=%d badfn=%d qmax=%d bmax=%d nev=%d logovf=%d taf=%d | T", tag, scen_no,
                 HOOKED, shutdown_call_stamp, shutdown_ret_stamp, shutdown_rc, atomic_load(&hold_timeouts), atomic_load(&badfn),
-                atomic_load(&qmax), n, atomic_load(&log_overflow), atomic_load(&g_touch_after_free));
-  for (int i = 0; i < n && o + 64 < sizeof(OUT); ++i) {
+                atomic_load(&qmax), atomic_load(&bmax), n, atomic_load(&log_overflow), atomic_load(&g_touch_after_free));
+  for (int i = 0; i < n && o + 1024 < sizeof(OUT); ++i) {
     hev *e = &LOG[i];
-    if (e->kind == K_CALL) o += snprintf(OUT + o, sizeof(OUT) - o, " %d:%d:%d:%d:%d", e->tid, e->kind, e->a, e->b, e->c);
+    if (e->kind == K_REGS) {
+      o += snprintf(OUT + o, sizeof(OUT) - o, " %d:%d", e->tid, e->kind);
+      for (int j = 0; j < e->b && j < MAXREGS; ++j) o += snprintf(OUT + o, sizeof(OUT) - o, ":%d", SIDE[e->a + j]);
+    } else if (e->kind == K_CALL) o += snprintf(OUT + o, sizeof(OUT) - o, " %d:%d:%d:%d:%d", e->tid, e->kind, e->a, e->b, e->c);
     else if (e->kind == K_RET) o += snprintf(OUT + o, sizeof(OUT) - o, " %d:%d:%d:%d", e->tid, e->kind, e->a, e->b);
     else if (e->kind == K_LOCK || e->kind == K_UNLOCK || e->kind == K_EXIT || e->kind == K_FREE)
       o += snprintf(OUT + o, sizeof(OUT) - o, " %d:%d", e->tid, e->kind);
@@ -500,11 +546,11 @@ static void run_scenario(char *line) {
   if (P.nt < 0) P.nt = 0; if (P.nsub * P.nt > MAXTASK) P.nt = MAXTASK / P.nsub;
   if (P.nthreads < 1) P.nthreads = 1; if (P.nthreads > 8) P.nthreads = 8;
   // reset
-  atomic_store(&nlog, 0); atomic_store(&log_overflow, 0);
+  atomic_store(&nlog, 0); atomic_store(&log_overflow, 0); atomic_store(&nside, 0);
   memset(cnt_tk, 0, sizeof(cnt_tk)); memset(cnt_k, 0, sizeof(cnt_k)); memset(gate, 0, sizeof(gate));
   atomic_store(&hold_timeouts, 0); atomic_store(&stamp, 1); atomic_store(&subs_done, 0);
-  atomic_store(&shutdown_returned, 0); atomic_store(&badfn, 0); atomic_store(&qmax, 0);
-  atomic_store(&g_freed, 0); atomic_store(&g_touch_after_free, 0); atomic_store(&nquar, 0);
+  atomic_store(&shutdown_returned, 0); atomic_store(&badfn, 0); atomic_store(&qmax, 0); atomic_store(&bmax, 0);
+  atomic_store(&g_started, 0); atomic_store(&g_freed, 0); atomic_store(&g_destroying, 0); atomic_store(&g_touch_after_free, 0); atomic_store(&nquar, 0);
   shutdown_ret_stamp = shutdown_call_stamp = 0; shutdown_rc = -1;
   nthr = 0; next_worker = 0; next_ovf = 0;
   ntasks = P.nsub * P.nt;
@@ -519,9 +565,9 @@ static void run_scenario(char *line) {
     if ((size_t) i < ndurs) t->dur = durs[i] - '0';
     int m = (int) ((r >> 8) % 100);
     if ((size_t) i < napis) t->api = apis[i] - '0';
-    else if (P.tp) t->api = m < P.mix ? 4 : 0;
+    else if (P.tp) t->api = m < P.mix ? 4 + (int) ((r >> 20) & 1) : 0; // 4 queue_size, 5 threads_busy_num
     else t->api = m < P.mix ? 1 + (int) ((r >> 20) % 3) : 0; // 1 schedule_only, 2 empty_only, 3 -> queue size
-    if (t->api == 3) t->api = 4;
+    if (t->api == 3 || (t->api == 5 && !P.tp)) t->api = 4;
   }
   if (gt) {
     char *sp = 0;
@@ -549,6 +595,7 @@ static void run_scenario(char *line) {
     }
   }
   quiet = 0;
+  atomic_store(&g_started, 1);
   if (rc || !g_exec) { printf("STARTFAIL\n"); fflush(stdout); atomic_store(&scen_active, 0); return; }
   pthread_t sub[8], sh;
   subarg sa[8];
